@@ -30,7 +30,7 @@ pub struct RunResult {
 
 impl History {
     pub fn cfg(&self) -> Cfg {
-        Cfg { limit: 2000, c15_each: true, c14_diff_each: self.diff_each, diff_pool: self.diff_pool.clone(), diff_ns: self.diff_ns.clone() }
+        Cfg { limit: 2000, c15_each: true, c14_diff_each: self.diff_each, diff_pool: self.diff_pool.clone(), diff_ns: self.diff_ns.clone(), gates: vec![] }
     }
 
     /// Execute the history from scratch against the real library.
